@@ -427,6 +427,140 @@ theorem spouses_is_resolve (now : Nat) (docs : List Forest) (d : Nat) (n : Node)
         (fun l => .slice "IndividualNodes" (.ptr "IndividualNode") false (l.map (entVal d "IndividualNode")))) := by
   rfl
 
+/-! ### round 4: the remaining expression kinds, and the reflection rules of the accessor -/
+
+/-- a constant evaluates to its text, whatever the input -/
+theorem const_is_value (env : Env) (lk : Lookup) (s : Str) (v : Val) : evalExpr env lk (.const s) v = .ok (.str s) := by
+  rw [evalExpr]
+
+/-- `?` (as an expression and as the function `?`) looks at the *type* of the input only -/
+theorem question_is_type_listing (env : Env) (lk : Lookup) (v : Val) :
+    evalExpr env lk .question v = questionOf env.varNames v := by
+  rw [evalExpr]
+
+/-- for a value of a receiver type in the reflection tables the listing is: the accessors of the
+    (pointer) type, the functions and the variable names, sorted bytewise -/
+theorem question_lists (vars : List Str) (r : String) (ms : List (String × Nat × Nat × Ty))
+    (h : Generated.Query.methods.find? (·.1 == r) = some (r, ms)) :
+    questionList (some r) vars =
+      .ok (.slice "" .str false ((sortStrs (ms.map (fun m => ascii ("." ++ m.1)) ++
+        Generated.Query.functions.map (fun f => ascii f.1) ++ vars)).map .str)) := by
+  simp [questionList, h]
+
+/-- `?` on a list is `?` on the element type (for pointer, struct and scalar element types) -/
+theorem question_of_list (vars : List Str) (nm : String) (k : String) :
+    questionTy vars (.slice nm (.ptr k)) = questionTy vars (.ptr k) ∧
+    questionTy vars (.slice nm .date) = questionTy vars .date ∧
+    questionTy vars (.slice nm .str) = questionTy vars .str := by
+  refine ⟨?_, ?_, ?_⟩ <;> simp [questionTy]
+
+/-- a comparison on a list is the comparison on every element, in order (a `[]bool`) -/
+theorem binary_maps_over_list (env : Env) (lk : Lookup) (l r : Expr) (op : String) (nm : String) (e : Ty) (isNil : Bool)
+    (vs : List Val) :
+    evalExpr env lk (.bin l op r) (.slice nm e isNil vs) =
+      (mapDeepList .bool (binaryOn op (evalExpr env lk l) (evalExpr env lk r)) vs >>= fun rs => pure (.slice "" .bool false rs)) := by
+  rw [evalExpr, mapDeep]
+
+/-- on a single item it is the operator applied to the two operands evaluated on that item -/
+theorem binary_on_item (env : Env) (lk : Lookup) (l r : Expr) (op : String) (v a b : Val) (hv : v.isSlice = false)
+    (hl : evalExpr env lk l v = .ok a) (hr : evalExpr env lk r v = .ok b) :
+    evalExpr env lk (.bin l op r) v = .ok (applyOp op a b) := by
+  rw [evalExpr, mapDeep_nonslice _ _ _ hv]
+  simp [binaryOn, hl, hr, bind, Outcome.bind, pure]
+
+/-- MergeDocumentsAndIndividuals: an argument that is not a document is an error -/
+theorem merge_requires_documents (a b : Unit → Outcome Val) (x : Val) (ha : a () = .ok x)
+    (hx : ∀ i, x ≠ .doc i) : mergeWith a b = .error .notDocument := by
+  unfold mergeWith
+  rw [ha]
+  cases x <;> first | rfl | (exact absurd rfl (hx _))
+
+/-- methods with arguments are not callable from a query: reflection's `Call` with no arguments
+    panics, which `evaluateAccessor` recovers into an error — for every receiver type in the tables -/
+theorem method_with_arguments_is_error (now : Nat) (docs : List Forest) (acc : Str) (v : Val) (t : Ty) (recv : String)
+    (nin nout : Nat) (out : Ty) (ht : v.ty = some t) (hr : recvOfTy t = some recv) (hk : knownRecv recv = true)
+    (hm : methodInfo recv acc = some (nin + 1, nout, out)) :
+    accessSingle now docs acc v = .error .methodPanicked := by
+  unfold accessSingle
+  simp [ht, hr, hk, hm]
+
+/-- a method wins over a struct field of the same name: when reflection finds a niladic method the
+    field table is not consulted -/
+theorem method_before_field (now : Nat) (docs : List Forest) (acc : Str) (v : Val) (t : Ty) (recv : String)
+    (nout : Nat) (out : Ty) (r : MenuResult) (ht : v.ty = some t) (hr : recvOfTy t = some recv) (hk : knownRecv recv = true)
+    (hm : methodInfo recv acc = some (0, nout + 1, out))
+    (hc : callMenu now docs recv (strOfAscii? acc) v = some r) :
+    accessSingle now docs acc v = r.toOutcome := by
+  unfold accessSingle
+  simp [ht, hr, hk, hm, hc]
+
+/-- struct fields: an unexported field is an error (`field.Interface()` panics, recovered), a field
+    of a nil pointer is "no such accessor" (`FieldByName` on the zero Value panics inside getField) -/
+theorem unexported_field_is_error (now : Nat) (docs : List Forest) (acc : Str) (v : Val) (t : Ty) (recv : String) (fi : Bool × Ty)
+    (ht : v.ty = some t) (hr : recvOfTy t = some recv) (hk : knownRecv recv = true) (hm : methodInfo recv acc = none)
+    (hf : fieldInfo recv acc = some fi) (hn : v.isNilPtr = false) (he : isExportedName acc = false) :
+    accessSingle now docs acc v = .error .methodPanicked := by
+  unfold accessSingle
+  simp [ht, hr, hk, hm, hf, hn, he]
+
+theorem nil_pointer_field_is_no_accessor (now : Nat) (docs : List Forest) (acc : Str) (k : String) (fi : Bool × Ty)
+    (hk : knownRecv k = true) (hm : methodInfo k acc = none) (hf : fieldInfo k acc = some fi) :
+    accessSingle now docs acc (.nilNode k) = .error .noSuchAccessor := by
+  unfold accessSingle
+  simp [Val.ty, recvOfTy, hk, hm, hf, Val.isNilPtr]
+
+/-- over a list a field gives a list of the field's (regenerated) type only if `FieldByName`
+    succeeds on the zero struct; a field promoted through an embedded pointer does not: the
+    reflection panic `nilType` (recovered by Engine.Evaluate) -/
+theorem promoted_field_over_list_panics (k : String) (acc : Str) (fty : Ty) (hk : knownRecv k = true)
+    (hm : methodInfo k acc = none) (hf : fieldInfo k acc = some (false, fty)) :
+    returnType (.ptr k) acc = .panic .nilType := by
+  unfold returnType
+  simp [recvOfTy, hk, hm, hf]
+
+/-- the fields of a `gedcom.Date` (struct value): Day, Month, Year, IsEndOfRange, Constraint -/
+theorem date_fields (p : PDate) (e : Bool) :
+    fieldMenu "Day" (.date p e) = some (.int p.day) ∧ fieldMenu "Year" (.date p e) = some (.int p.year) ∧
+    fieldMenu "Month" (.date p e) = some (.named "time.Month" p.month) ∧ fieldMenu "IsEndOfRange" (.date p e) = some (.bool e) ∧
+    fieldMenu "Constraint" (.date p e) = some (.named "gedcom.DateConstraint" p.constraint.toNat) := by
+  refine ⟨rfl, rfl, rfl, rfl, rfl⟩
+
+/-- `StartDate` / `EndDate` are the two ends of the parsed range (shared date model of C04/C05); of a
+    method with several results the first one is the value: `StartAndEndDates` = `StartDate` -/
+theorem start_end_date_spec (now : Nat) (docs : List Forest) (d : Nat) (n : Node) :
+    callMenu now docs "DateNode" "StartDate" (.node d n) = some (.val (.date (parseDateRange n.value).start false)) ∧
+    callMenu now docs "DateNode" "EndDate" (.node d n) = some (.val (.date (parseDateRange n.value).end_ true)) ∧
+    callMenu now docs "DateNode" "StartAndEndDates" (.node d n) = callMenu now docs "DateNode" "StartDate" (.node d n) := by
+  refine ⟨rfl, rfl, rfl⟩
+
+/-- the embedded `*SimpleNode`: the field `SimpleNode` and the method `RawSimpleNode` give the same
+    value, and its Tag / Value / Pointer / Nodes are the node's -/
+theorem raw_simple_node_spec (now : Nat) (docs : List Forest) (d : Nat) (n : Node) :
+    fieldMenu "SimpleNode" (.node d n) = some (mkRaw d n) ∧
+    callMenu now docs "NameNode" "RawSimpleNode" (.node d n) = some (.val (mkRaw d n)) ∧
+    callMenu now docs "SimpleNode" "Value" (.raw d n) = some (.val (.str n.value)) ∧
+    callMenu now docs "SimpleNode" "Nodes" (.raw d n) = some (.val (mkNodes d n.kids)) := by
+  refine ⟨rfl, rfl, rfl, rfl⟩
+
+/-- `ShallowCopy` (of the types that can be created without a family or a document): same tag,
+    value and pointer, no children, in no document -/
+theorem shallow_copy_spec (k : Nat) (n : Node)
+    (h : (Node.kind n == "HusbandNode" || Node.kind n == "WifeNode" || Node.kind n == "ChildNode" ||
+          Node.kind n == "IndividualNode" || Node.kind n == "FamilyNode") = false) :
+    shallowCopy k n = .val (.node k (.mk n.tag n.value n.ptr [])) := by
+  unfold shallowCopy
+  simp only [h]
+  rfl
+
+/-- `AllEvents` is the order-preserving filter of the children by `Tag.IsEvent` (regenerated tag
+    table); `EstimatedBirthDate` is the date `IsLiving` uses -/
+theorem all_events_is_filter (now : Nat) (docs : List Forest) (d : Nat) (n : Node) :
+    callMenu now docs "IndividualNode" "AllEvents" (.node d n) =
+      some (.val (.slice "Nodes" .nodeI (n.kids.filter (fun k => tagIsEvent k.tag)).isEmpty
+        ((n.kids.filter (fun k => tagIsEvent k.tag)).map (.node d)))) ∧
+    callMenu now docs "IndividualNode" "EstimatedBirthDate" (.node d n) = some (.val (optDate d (estimatedBirthDate n))) := by
+  refine ⟨rfl, rfl⟩
+
 /-! ### the Go source, translated (harness/extract_querysrc.go, Model/QuerySrc.lean)
 
   The decision structure of q/binary_expr.go and the index arithmetic of First / Last are read
